@@ -5,6 +5,7 @@ import (
 	"fmt"
 	"math/big"
 	"runtime"
+	"strings"
 
 	"filippo.io/edwards25519"
 	"filippo.io/edwards25519/field"
@@ -297,6 +298,59 @@ func (r *Run) probe(c *Call) []*Violation {
 		o.B = []byte{}
 	}
 	o.Backing = o.B
+	// A destination is not an argument: when the receiver is written only (and
+	// shares storage with no input), half of the probes start it from another
+	// state than the recorded one - the zero value or an unrelated valid value.
+	// Only for calls that succeeded: a failed setter leaves its receiver as it was.
+	varied := ""
+	if c.Mode&1 == 1 && op.Writes && !op.RecvInput && !op.Ctor && !op.SwapArg &&
+		strings.HasPrefix(rec.OutDig, "panic=false ") && !strings.Contains(rec.OutDig, "err:") {
+		in := func(xs []int) bool {
+			for _, x := range xs {
+				if x == cc.R {
+					return true
+				}
+			}
+			return false
+		}
+		alt := c.Mode&2 == 2
+		switch op.Recv {
+		case KPoint:
+			if !in(cc.P) {
+				if alt {
+					b := ref.Base()
+					setPointRaw(o.RP, alpha.PointLimbs(PointFromProjective(b.X, b.Y, big.NewInt(int64(3+c.Mode>>8&0xffff)))))
+					varied = "another valid point"
+				} else {
+					setPointRaw(o.RP, alpha.PointRaw{})
+					varied = "the zero value"
+				}
+			}
+		case KScalar:
+			if !in(cc.S) {
+				if alt {
+					setScalarRaw(o.RS, alpha.ScalarLimbs(ScalarFromInt(new(big.Int).Lsh(big.NewInt(int64(12345+c.Mode>>8&0xffff)), 200))))
+					varied = "another scalar"
+				} else {
+					setScalarRaw(o.RS, alpha.ScalarRaw{})
+					varied = "the zero value"
+				}
+			}
+		case KElem:
+			if !in(cc.E) || op.OutElems {
+				if alt {
+					setElemRaw(o.RE, alpha.ElemLimbs(ElemFromInt(new(big.Int).Lsh(big.NewInt(int64(12345+c.Mode>>8&0xffff)), 230), true)))
+					varied = "another element"
+				} else {
+					setElemRaw(o.RE, alpha.Limbs{})
+					varied = "the zero value"
+				}
+			}
+		}
+		if varied != "" {
+			r.Stats.Inc("oracle/C19/probe/receiver_varied")
+		}
+	}
 	out := op.run(o)
 	if op.Ctor && out.Ret != nil {
 		// mirror what the harness did at record time: copy into the receiver
@@ -320,8 +374,14 @@ func (r *Run) probe(c *Call) []*Violation {
 	r.Stats.Add("probe/C19/probe_distance_steps", int64(r.StepNo-rec.Step))
 	var vs []*Violation
 	if dig != rec.OutDig {
-		vs = append(vs, r.viol("C19", "not-a-pure-function", op.Name,
-			fmt.Sprintf("%s re-issued at step %d on bit-copies of the operands of step %d gave a different result:\n  first: %s\n  now:   %s", op.Name, r.StepNo, rec.Step, rec.OutDig, dig)))
+		how := "on bit-copies of the operands"
+		key := op.Name
+		if varied != "" {
+			how = "on bit-copies of the arguments, with the write-only receiver started from " + varied + ","
+			key += "/receiver-dependent"
+		}
+		vs = append(vs, r.viol("C19", "not-a-pure-function", key,
+			fmt.Sprintf("%s re-issued at step %d %s of step %d gave a different result:\n  first: %s\n  now:   %s", op.Name, r.StepNo, how, rec.Step, rec.OutDig, dig)))
 	}
 	vs = append(vs, r.anchors("at a probe step")...)
 	line := fmt.Sprintf("%d %s\n", r.StepNo, c.String())
